@@ -75,6 +75,19 @@ func runC40(c *core.Ctx) {
 			}
 			return false
 		}
+		// what the failed call did to the output accounts (transfers) is discarded on the live context itself
+		resetsAccounts := func(in ssa.Instruction) bool {
+			st, ok := in.(*ssa.Store)
+			if !ok || !isRecvFieldAddr(fn, st.Addr, "outputAccounts") {
+				return false
+			}
+			_, fresh := st.Val.(*ssa.MakeMap)
+			return fresh
+		}
+		qa := core.PathQ{Fn: fn, From: exec, Via: resetsAccounts, Prune: okBranch, Target: core.AnyReturn}
+		escA, pathA := qa.Escape()
+		c.Check(escA == nil, "C40/failure-discards-output-accounts", "vmContext.ExecuteOnDestContext", exec.Pos(), "when the nested contract fails, the live context's outputAccounts is replaced by an empty map before returning",
+			"on the `returnCode != Ok` branch the live context's outputAccounts is not reset ("+c.P.PathString(pathA)+"): transfers made by the failed call are merged into the caller's context")
 		q := core.PathQ{Fn: fn, From: exec, Via: restores, Prune: okBranch, Target: core.AnyReturn}
 		esc, path := q.Escape()
 		c.Check(esc == nil, "C40/failure-restores-storage", "vmContext.ExecuteOnDestContext", exec.Pos(), "when the nested contract fails, storageUpdate is restored before returning",
